@@ -57,6 +57,7 @@ func init() {
 			{ID: "C16-R33", Title: "mutable values are not shared", Floor: 1, Run: mutableValuesAreNotShared},
 			{ID: "C16-R34", Title: "an update writes the argument last", Floor: 1, Run: anUpdateWritesTheArgumentLast},
 			{ID: "C16-R35", Title: "an entry has a key and a value of its own (shared with C01-R40)", Floor: 4, Run: anEntryHasAKeyAndAValueOfItsOwn},
+			{ID: "C16-R36", Title: "method names come before items", Floor: 1, Run: methodNamesComeBeforeItems},
 		},
 	})
 }
